@@ -38,7 +38,12 @@ func Run(id, tier string) int {
 		return 2
 	}
 	dir := core.RepoDir()
-	prog, err := core.Load(dir, nil, p.Patterns...)
+	patterns := p.Patterns
+	if extra := os.Getenv("PDFVERIF_EXPLORE_PATTERNS"); extra != "" {
+		// exploration only (never used by registered commands): widen the loaded scope
+		patterns = append(append([]string{}, patterns...), strings.Fields(extra)...)
+	}
+	prog, err := core.Load(dir, nil, patterns...)
 	if err != nil {
 		// fail closed: a tree that does not load cannot be certified
 		fmt.Printf("ERROR: %v\n", err)
